@@ -227,11 +227,20 @@ CLAIMS = {
              "succeeded and was neither completed nor cancelled, recovery returns exactly that pair). "
              "remediation_order_chimera_witness (decide, N = 6) shows the pinned single-pass remediation violates it; "
              "remediation_order_repaired. On the real code: ring histories and crash-inside-every-operation scenarios "
-             "with header post-condition, protected-slot and no-chimera oracles; the chimera path is a corpus scenario.",
+             "with header post-condition, protected-slot and no-chimera oracles, and the oracle 'latest start succeeded "
+             "and neither completed nor cancelled => recovery returns a session' on clean-reboot scripts (wrapped pairs, "
+             "exact-fit geometries); the ring histories also run on the single-erasure back-end; the chimera path is a "
+             "corpus scenario. Tie to the flash level (Props/RingRefine): tryRecover_runs / check_runs (the flash-level "
+             "try_recover and check_and_mark_done emit exactly recoverOps [+ the cancel-all tail when the status tables "
+             "are inconsistent] / completeOps, and every power-loss prefix of them), recover_complete_refines / "
+             "recover_crash_refines / check_complete_refines / cancelAll_complete_refines / start_complete_refines (the "
+             "calls and their crash prefixes act on the parsed headers as the machine's steps), flash_recover_no_chimera.",
         note="No-wrap assumption SeqRoom; GeomOK (accepted geometry, capacity <= 2048) for the 'returns latest' direction. "
              "Without a 'latest successful start' recovery may legitimately return an older live pair (e.g. after an "
              "interrupted reuse-start); hence the two halves instead of a literal iff. Defect found by the machine's "
-             "closure, replayed on the real code and repaired in /repo: remediation erased before it aborted.",
+             "closure, replayed on the real code and repaired in /repo: remediation erased before it aborted (matrix back-end "
+             "9c50581; the same loop in the single-erasure back-end was found later by the thorough tier of C19 and "
+             "repaired in f374795).",
         design_ref="DESIGN.md section 6 (C13)"),
     "C17": dict(
         text="Proved in Lean over the L2 model, in which every Rust panic site is the outcome `panic`: "
